@@ -4,6 +4,8 @@
 //! (`RtcModel.Stun`, `RtcModel.Turn`, `RtcModel.IcePrio`, `RtcModel.IceCand`) and evaluates the
 //! property's own oracles on the implementation, three-way with the webrtc-rs `stun` crate.
 pub mod msg;
+pub mod cand;
+pub mod turn;
 
 use crate::{Args, Rng, Run, hex};
 use msg::*;
@@ -31,6 +33,27 @@ fn do_enc(run: &mut Run, s: &Spec) {
     for (sig, detail) in oracle_enc(s, &out) {
         run.fail(&sig, &format!("enc {input}"), &detail);
     }
+    // the Lean RFC 5389 reader (header / strict attribute walk / §15.4 / §15.5) on rustrtc's bytes,
+    // against the reference crate's verdicts; also with a wrong key and a corrupted transaction id
+    if run.n_cases % 3 == 0 {
+        do_rfc(run, &out, s.key.as_deref());
+        if let Some(k) = &s.key { let mut k2 = k.clone(); k2.push(0x55); do_rfc(run, &out, Some(&k2)); }
+        let mut bad = out.clone(); bad[8 + (run.n_cases % 12) as usize] ^= 0x10; do_rfc(run, &bad, s.key.as_deref());
+    }
+}
+
+fn do_rfc(run: &mut Run, bytes: &[u8], key: Option<&[u8]>) {
+    use stun::attributes::*;
+    use stun::message::Message;
+    let mut m = Message::new();
+    m.raw = bytes.to_vec();
+    let ok = m.decode().is_ok() && m.raw.len() == 20 + m.length as usize;
+    let out = if !ok { "hdr=0 attrs=bad".to_string() } else {
+        let mi = match key { None => "-".to_string(), Some(k) => (stun::integrity::MessageIntegrity(k.to_vec()).check(&mut m).is_ok() as u8).to_string() };
+        let fp = m.attributes.0.last().map(|a| a.typ) == Some(ATTR_FINGERPRINT) && stun::fingerprint::FINGERPRINT.check(&m).is_ok();
+        format!("hdr=1 attrs={} mi={mi} fp={}", m.attributes.0.len(), fp as u8)
+    };
+    run.case("rfc", &format!("{} {}", key.map(|k| format!("k,{}", hex(k))).unwrap_or_else(|| "nokey".into()), hex(bytes)), &out, true);
 }
 
 /// `dec`: decode with rustrtc; `expect` (when the bytes were built by the reference crate from known,
@@ -235,6 +258,11 @@ pub fn run(args: &Args) {
     for &l in &pool { for &r in &pool { do_pair(&mut run, l, r); } }
     if thorough { for _ in 0..200_000 { do_pair(&mut run, rng.next() as u32, rng.next() as u32); } }
 
+    // (6) candidate lines
+    cand::run_all(&mut run, &mut rng, thorough);
+    // (7) TURN
+    turn::run_all(&mut run, &mut rng, thorough);
+
     run.exhaustive = true;
     run.notes.insert("exhaustive_scope".into(), serde_json::json!(
         "encode: 7 methods x 4 classes x key x fingerprint; string/DATA attributes of every length 0..=763; address boundary pool x 3 address attributes x 3 transaction ids; priorities: 4 types x 4 transports x components 0..=300 + boundaries; pair priority: all 64x64 pairs x 2 roles"));
@@ -250,7 +278,7 @@ fn do_dec_of_reference(run: &mut Run, s: &Spec) {
 fn replay(case: &str) {
     let case = case.trim();
     let (stream, rest) = match case.split_once(' ') {
-        Some((s, r)) if ["enc", "dec", "prio", "pair", "hash"].contains(&s) => (s.to_string(), r.to_string()),
+        Some((s, r)) if ["enc", "dec", "prio", "pair", "hash", "fromsdp", "tosdp-roundtrip"].contains(&s) => (s.to_string(), r.to_string()),
         _ => {
             let first = case.split(' ').next().unwrap_or("");
             let st = if ["req", "ind", "ok", "err"].contains(&first) { "enc" }
@@ -269,6 +297,15 @@ fn replay(case: &str) {
         "prio" => { let f: Vec<&str> = rest.split(' ').collect();
                     let t = TYPES.into_iter().find(|t| typ_name(*t) == f[0]).unwrap(); do_prio(&mut run, t, f[1].parse().unwrap(), f[2]); }
         "pair" => { let f: Vec<&str> = rest.split(' ').collect(); do_pair(&mut run, f[1].parse().unwrap(), f[2].parse().unwrap()); }
+        "fromsdp" | "tosdp-roundtrip" => {
+            let line = String::from_utf8(crate::unhex(rest.split(' ').next().unwrap())).unwrap();
+            println!("line: {line}");
+            match IceCandidate::from_sdp(&line) {
+                Ok(c) => { println!("impl: {:?}", c); println!("reprinted: {}", c.to_sdp()); cand::roundtrip(&mut run, &c);
+                           if c.to_sdp() != line && stream == "tosdp-roundtrip" { println!("ORACLE-FAIL codec:candidate-line:line-changed {} -> {}", line, c.to_sdp()); } }
+                Err(e) => println!("impl: error {e}"),
+            }
+        }
         _ => {}
     }
     for f in &run.fails { println!("ORACLE-FAIL {} {}", f.signature, f.detail); }
